@@ -42,7 +42,7 @@ func runC08(ctx *core.Ctx) {
 	ctx.SetRule("case = ((size,slide) incl. slide∤size, slide=size, slide>size; MAXOUTOFORDERNESS; 0-4 groups; timestamp pattern; feed mode) from PRNG(seed,index), closed by a sentinel; " +
 		"non-trivial = at least 3 intervals delivered and some row covered by 2+ intervals or out-of-order/late input; distinct by (SQL, rows, feed) hash")
 	ctx.Assume("single producer; block strategy", "a missing interval is declared only after a long engine-quiet wait")
-	n := ctx.N(50, 1200)
+	n := ctx.N(400, 25000)
 	ctx.Cases("c08", n, 4*workers(), func(i int, r *rand.Rand) {
 		execC08(ctx, genEvSliding(core.CaseRef{Stream: "c08", Index: i}, r))
 	})
